@@ -36,8 +36,28 @@ def to_text(block, push0_spelling=False):
 
 
 def from_asm_block(asm_block):
-    """Tool's AsmBlock -> my block (reads only disasm/value of each item)."""
-    return [from_asm_item(b.disasm, b.value) for b in asm_block.instructions]
+    """Tool's AsmBlock -> my block.  Reads the fields the serializer emits: name and, like AsmBytecode.to_json, the
+    real value when a value is present."""
+    out = []
+    for b in asm_block.instructions:
+        v = b.value
+        if v is not None and b.disasm != "PUSH":
+            v = b.real_value
+        out.append(from_asm_item(b.disasm, v))
+    return out
+
+
+def to_json_items(block):
+    """My block -> solc asm-JSON items (what the tool reads from a compiler output)."""
+    items = []
+    for n, (op, arg) in enumerate(block):
+        it = {"begin": 10 + n, "end": 20 + n, "name": op, "source": 0}
+        if op == "PUSH":
+            it["value"] = "%X" % arg
+        elif arg is not None:
+            it["value"] = str(arg)
+        items.append(it)
+    return items
 
 
 def from_asm_item(name, value):
